@@ -33,7 +33,7 @@ def plan(tier):
 
 
 def gen_cases(ctx):
-    for i in range(ctx.share(ctx.scale(800, 40000))):
+    for i in range(ctx.share(ctx.scale(800, 200000))):
         rng = ctx.rng(1, i)
         yield {"kind": "spherical", "seed": int(rng.integers(1 << 31)), "scale": float(10.0 ** rng.uniform(-100, 100)) if rng.random() < 0.3 else 1.0}
     for i in range(ctx.share(ctx.scale(600, 20000))):
@@ -44,7 +44,7 @@ def gen_cases(ctx):
         rng = ctx.rng(3, i)
         yield {"kind": "lambert", "seed": int(rng.integers(1 << 31))}
     kernels = ["kamb_count", "schmidt_count", "exponential_kamb", "linear_inverse_kamb", "square_inverse_kamb"]
-    for i in range(ctx.share(ctx.scale(100, 1600))):
+    for i in range(ctx.share(ctx.scale(100, 8000))):
         rng = ctx.rng(4, i)
         yield {"kind": "density", "seed": int(rng.integers(1 << 31)), "kernel": kernels[i % 5],
                "n": int(rng.choice([2, 5, 40, 300, 1000])), "data": str(rng.choice(["random", "cluster", "girdle", "axes", "bimodal"])),
